@@ -122,12 +122,8 @@ struct TStore
 };
 static std::string textOf(const PoolVal & v) { return v.kind == VK_STR ? v.str : v.kind == VK_CHAR ? std::string(1, (char)v.num) : vf::num(v.num); }
 
-static_assert(eventpp::anyid_internal_::HasEqual<VStore>::value, "VStore must have ==");
-static_assert(eventpp::anyid_internal_::HasLess<VStore>::value, "VStore must have <");
-static_assert(! eventpp::anyid_internal_::HasEqual<NStore>::value, "NStore must not have ==");
-static_assert(! eventpp::anyid_internal_::HasLess<NStore>::value, "NStore must not have <");
-static_assert(! eventpp::anyid_internal_::HasEqual<eventpp::EmptyAnyStorage>::value, "EmptyAnyStorage must not have ==");
-static_assert(! eventpp::anyid_internal_::HasLess<eventpp::EmptyAnyStorage>::value, "EmptyAnyStorage must not have <");
+// (which comparisons AnyId finds in a storage is not asserted at compile time: a library that stops finding VStore's
+// operators is caught by the pair laws - colliding ids would be unequal yet incomparable - under the standard level it happens in)
 
 // ------------------------------------------------------------------ configurations
 struct PolOrdered { template <typename K, typename V> using Map = std::map<K, V>; };
@@ -228,6 +224,7 @@ struct IWorld
 {
 	virtual ~IWorld() {}
 	virtual void makeIds(const std::vector<PoolVal> & pool, std::vector<long long> & digestWanted, std::vector<long long> & digestGot) = 0;
+	virtual void assignAll(std::vector<unsigned char> & out) = 0;
 	virtual void evaluate(std::vector<char> & eq, std::vector<char> & lt, std::vector<std::size_t> & hs, std::vector<std::size_t> & hsCopy) = 0;
 	// dispatcher: kind 0 = default map (unordered_map), 1 = policy map (std::map)
 	virtual void openDispatcher(int kind) = 0;
@@ -288,6 +285,34 @@ struct WorldT : IWorld
 			ids.push_back(C::make(p[i]));
 			want.push_back(C::digestOf(p[i]));
 			got.push_back((long long)ids.back().getDigest());
+		}
+	}
+	// x = ids[j] assigned over an object that held ids[i]: bit 0 x == ids[j], bit 1 x and ids[j] incomparable, bit 2 same hash, bit 3 (x == ids[i]) agrees with (ids[j] == ids[i]);
+	// the same through move assignment in bits 4-7
+	void assignAll(std::vector<unsigned char> & out) override {
+		const size_t n = ids.size();
+		const std::hash<Id> hasher = std::hash<Id>();
+		out.assign(n * n, 0);
+		for(size_t i = 0; i < n; ++i) for(size_t j = 0; j < n; ++j) {
+			unsigned char r = 0;
+			{
+				Id x(ids[i]);
+				x = ids[j];
+				if(x == ids[j] && ids[j] == x) r |= 1;
+				if(! (x < ids[j]) && ! (ids[j] < x)) r |= 2;
+				if(hasher(x) == hasher(ids[j])) r |= 4;
+				if((x == ids[i]) == (ids[j] == ids[i])) r |= 8;
+			}
+			{
+				Id x(ids[i]);
+				Id tmp(ids[j]);
+				x = std::move(tmp);
+				if(x == ids[j] && ids[j] == x) r |= 16;
+				if(! (x < ids[j]) && ! (ids[j] < x)) r |= 32;
+				if(hasher(x) == hasher(ids[j])) r |= 64;
+				if((x == ids[i]) == (ids[j] == ids[i])) r |= 128;
+			}
+			out[i * n + j] = r;
 		}
 	}
 	void evaluate(std::vector<char> & eq, std::vector<char> & lt, std::vector<std::size_t> & hs, std::vector<std::size_t> & hsCopy) override {
@@ -383,6 +408,19 @@ struct Case
 		for(int i = 0; i < n; ++i)
 			if(hs[i] != hc[i]) fail("hash:copy-of-id-hashes-differently", P(i) + ": std::hash gives " + unum(hs[i]) + " for the id and " + unum(hc[i]) + " for its copy");
 		count("pairs_evaluated", (uint64_t)n * n);
+		// an id assigned over another id (copy and move assignment) is the assigned id
+		std::vector<unsigned char> asg;
+		world.assignAll(asg);
+		for(int i = 0; i < n; ++i) for(int j = 0; j < n; ++j) {
+			const unsigned r = asg[(size_t)i * n + j];
+			if(r == 255) continue;
+			const char * cls = sameV(i, j) ? "same-value" : dg[i] == dg[j] ? "colliding-digests" : "different-digests";
+			const bool mv = (r & 15) == 15;
+			const unsigned h = mv ? (r >> 4) : (r & 15);
+			fail(std::string(mv ? "assign:move-assigned-id-is-not-the-source-id:" : "assign:copy-assigned-id-is-not-the-source-id:") + cls,
+				"x held " + P(i) + "; after x = " + P(j) + ": x == source " + num((h & 1) != 0) + ", incomparable with source " + num((h & 2) != 0) + ", same hash " + num((h & 4) != 0) + ", compares with its old value like the source does " + num((h & 8) != 0));
+		}
+		count("assignments_checked", (uint64_t)n * n * 2);
 	}
 
 	// pair laws + ground truth
